@@ -80,7 +80,17 @@ def check(ctx: Ctx) -> None:
         reg_ = message_registry(repo)
         need = {reg_[k][1].short for k in (5, 6, 7) if k in reg_} | {"ChannelFactory._local_receive", "ChannelFactory._finished_receiving"}
         have_callers = {fi.short for fi, _c in sites}
-        ob.require(need <= have_callers, f"_local_close is not called from {sorted(need - have_callers)} (the close handlers, the callback-failure arm and the epilogue must all reach it)")
+        missing = need - have_callers
+        if missing:
+            # a caller may end the receiving side through a sibling entry point (sendonly wrapper): judged by effect, and then no
+            # error value may be stored by it at all
+            from ._chan import close_effects
+            for fq in sorted(missing):
+                cand = [f_ for f_ in repo.scan_funcs() if f_.short == fq]
+                ce = close_effects(repo, cand[0]) if cand else []
+                if ce and all(c["error"] is None for c in ce):
+                    missing = missing - {fq}
+        ob.require(not missing, f"_local_close is not called from {sorted(missing)} (the close handlers, the callback-failure arm and the epilogue must all reach it)")
         for fi, c in sites:
             e = arg(c, 1, "remoteerror")
             r = _is_remote_error_expr(repo, fi, e)
@@ -111,7 +121,14 @@ def check(ctx: Ctx) -> None:
         for fi in repo.scan_funcs():
             for c in repo.calls_in(fi):
                 if callee_attr(c) == "append" and "_remoteerrors" in unparse(c.func) and fi.short not in ("Channel.close", "ChannelFactory._local_close"):
-                    ob.violation(fi, c, "_remoteerrors is appended to outside the two closed-transition implementations")
+                    # (an inlined copy of the transition whose error argument is the constant None never gets there: ask the paths)
+                    from ..terms import evaluator as _eva
+                    try:
+                        reached = any(e.kind == "call" and e.node is c for (_p, st_a) in _eva(repo, fi).run(limit=20000) for e in st_a.events)
+                    except Exception:
+                        reached = True
+                    if reached:
+                        ob.violation(fi, c, "_remoteerrors is appended to outside the two closed-transition implementations")
 
     f_lrecv = repo.func(f"{GB}.ChannelFactory._local_receive")
     with ctx.obligation("C07.b", "both-sides") as ob:
